@@ -158,6 +158,13 @@ pub fn gen_c18(seed: u64, tier: Tier) -> Scenario {
             ctor_faults.push((rng.usize_in(0, total.max(1)) as u32, rng.below(threads as u64) as u8, kind));
         }
     }
+    // caller threads with small (valid) stacks: an audio callback thread rarely has the 2 MiB of std's default
+    let mut stacks_kb: Vec<u16> = Vec::new();
+    if rng.chance(0.3) {
+        for _ in 0..threads {
+            stacks_kb.push(*rng.pick(&[0u16, 0, 256, 192, 128]));
+        }
+    }
     let first = instances[0].clone();
     Scenario {
         property: "C18".into(),
@@ -166,7 +173,7 @@ pub fn gen_c18(seed: u64, tier: Tier) -> Scenario {
         config: first.config,
         signal: first.signal,
         ops: vec![],
-        twin: Twin::Threads { threads, instances, schedule, ctor_faults },
+        twin: Twin::Threads { threads, instances, schedule, ctor_faults, stacks_kb },
         sim_seconds: 0.0,
         repeat: 0,
     }
@@ -282,9 +289,14 @@ fn solo_reference(file: &std::path::Path, k: usize) -> Result<Vec<String>, Strin
 pub fn eval_c18(sc: &Scenario) -> Outcome {
     let mut out = Outcome::default();
     let (threads, instances, schedule, ctor_faults) = match &sc.twin {
-        Twin::Threads { threads, instances, schedule, ctor_faults } => (*threads as usize, instances.clone(), schedule.clone(), ctor_faults.clone()),
+        Twin::Threads { threads, instances, schedule, ctor_faults, .. } => (*threads as usize, instances.clone(), schedule.clone(), ctor_faults.clone()),
         _ => return out,
     };
+    let stacks_kb: Vec<u16> = match &sc.twin {
+        Twin::Threads { stacks_kb, .. } => stacks_kb.clone(),
+        _ => vec![],
+    };
+    let mut small_stacks = 0u64;
     let k = threads.max(1);
     // spawn the caller threads
     let mut txs: Vec<Sender<Cmd>> = Vec::new();
@@ -293,7 +305,13 @@ pub fn eval_c18(sc: &Scenario) -> Outcome {
     for _ in 0..k {
         let (ctx, crx) = channel::<Cmd>();
         let (rtx, rrx) = channel::<Reply>();
-        handles.push(std::thread::spawn(move || worker_loop(crx, rtx)));
+        let kb: usize = std::env::var("RSIM_STACK_KB").ok().and_then(|s| s.parse().ok()).unwrap_or_else(|| stacks_kb.get(handles.len()).copied().unwrap_or(0) as usize);
+        if kb > 0 {
+            small_stacks += 1;
+            handles.push(std::thread::Builder::new().stack_size(kb * 1024).spawn(move || worker_loop(crx, rtx)).expect("spawn"));
+        } else {
+            handles.push(std::thread::spawn(move || worker_loop(crx, rtx)));
+        }
         txs.push(ctx);
         rxs.push(rrx);
     }
@@ -394,6 +412,7 @@ pub fn eval_c18(sc: &Scenario) -> Outcome {
     out.cov.fault("F10_late_constructions", late);
     out.cov.fault("F3_failing_constructor_calls", faults_fired);
     out.cov.fault("F8_foreign_call_unwinding_in_user_buffer", unwinds_fired);
+    out.cov.fault("F10_caller_threads_with_small_stack", small_stacks);
     // collect traces
     let mut traces: Vec<Option<Trace>> = (0..instances.len()).map(|_| None).collect();
     for id in 0..instances.len() {
